@@ -370,8 +370,12 @@ func (c *Ctx) checkLookupOrder(info *types.Info, fd *ast.FuncDecl, helper string
 						}
 					}
 					if b, ok := e.(*ast.BinaryExpr); ok && b.Op == token.NEQ && f.True {
-						if id, ok := unparen(b.X).(*ast.Ident); ok {
-							if n, ok := unparen(b.Y).(*ast.Ident); ok && n.Name == "nil" {
+						bx, by := unparen(b.X), unparen(b.Y)
+						if n0, ok := bx.(*ast.Ident); ok && n0.Name == "nil" {
+							bx, by = by, bx
+						}
+						if id, ok := bx.(*ast.Ident); ok {
+							if n, ok := by.(*ast.Ident); ok && n.Name == "nil" {
 								for _, o := range rvs {
 									if info.ObjectOf(id) == o {
 										hit = true
